@@ -16,6 +16,7 @@ PROP = 'C14'
 RULES = [
     Rule('C14.R1', 'no process-wide mutable object is written on a path reachable from the C API (except C++11 guarded static initialisation)', 60),
     Rule('C14.R2', 'every scalar member of an instance-state class is initialised by each of its constructors', 80),
+    Rule('C14.R3', 'a scratch member of a bundled C++ core that no constructor initialises is stored back into the persistent chip state only after the function has written it', 1),
 ]
 EXPLANATION = ('Whole-program LLVM IR analysis (all library units compiled to bitcode with the build\'s flags and linked): def-use chains are '
                'followed from every mutable global (GEP, casts, phi/select, argument passing into callees) to stores, mem-intrinsics and escaping '
@@ -153,6 +154,8 @@ def analyse(facts, tier):
 
     # ---- R2 constructor initialisation
     obls += r2(facts)
+    obls += r3_scratch_write_back(facts)
+    obls += r2b_created_records(facts)
     return obls, {'ir_functions': len(ir.fns), 'exported_roots': len(roots), 'reachable_functions': len(par), 'mutable_globals': n_mut}
 
 
@@ -266,3 +269,124 @@ def r2(facts):
                                 why=why if ok else 'scalar member is not initialised by this constructor, by a member function it calls, or during instance creation: its first read is indeterminate',
                                 detail={'type': f['t'].get('s')}, nontrivial=False))
     return obls
+
+
+def r3_scratch_write_back(facts):
+    """The bundled C++ emulator cores keep their persistent chip state in one sub-object that reset() clears, next to scratch members
+    that no constructor initialises (they are meant to be loaded from the state at the start of a render call and stored back at its
+    end).  A store `<state member> = <scratch member>` puts an indeterminate value into the persistent state - and from there into
+    the audio of every later call - unless the scratch member was written earlier in the same function on every path, or a
+    constructor initialises it.  (View CORES: the cores that are C++ classes with user constructors; today LibGens::Ym2612.)"""
+    out = []
+    cf = Facts('CORES')
+    n = 0
+    for rname, r in sorted(cf.records.items()):
+        base = rname.split('<')[0]
+        ctors = [g for g in cf.fns.get(rname + '::' + short(base), []) if g.d.get('ctor') and not g.d.get('copyctor')]
+        if not ctors or '/chips/' not in ctors[0].file:
+            continue
+        fields = r.get('fields', [])
+        allnames = [x['n'] for x in fields]
+        ctor_init = set(allnames)
+        for c in ctors:
+            ctor_init &= _stores_on_this(c, allnames) | {x['n'] for x in fields if x.get('dinit')}
+        scratch = {x['n'] for x in fields if scalar(x['t']) and x['n'] not in ctor_init}
+        persistent = {x['n'] for x in fields if not scalar(x['t']) and not x['t'].get('arr') and not x['t'].get('p')}     # sub-objects (the state struct)
+        if not scratch or not persistent:
+            continue
+        def member_of(e, names):
+            """name in `names` when e is <obj>.<name>[...] / <obj>-><name>.<..> rooted at an object of this record"""
+            t = strip(e)
+            chain = []
+            while isinstance(t, dict):
+                if t.get('k') == 'MemberExpr':
+                    chain.append(t); t = strip(t.get('b') or {})
+                elif t.get('k') == 'ArraySubscriptExpr':
+                    t = strip(t['b'])
+                else:
+                    break
+            for m in chain:
+                if short(m['n']) in names and rname in m['n']:
+                    return short(m['n'])
+            return None
+        for fn in cf.all_fns():
+            if fn.tree is None or '/chips/' not in fn.file:
+                continue
+            for b, j, st in fn.cfg.stmts():
+                for x in walk(st['s']):
+                    ap = assign_parts_raw(x)
+                    if not ap or ap[2] != '=':
+                        continue
+                    tgt = member_of(ap[0], persistent)
+                    src = member_of(ap[1], scratch) if strip(ap[1]).get('k') == 'MemberExpr' else None
+                    if not tgt or not src:
+                        continue
+                    n += 1
+                    written = False
+                    for b2, j2, st2 in fn.cfg.stmts():
+                        if not ((b2 == b and j2 < j) or (b2 != b and fn.cfg.block_dominates(b2, b))):
+                            continue
+                        for y in walk(st2['s']):
+                            ap2 = assign_parts_raw(y)
+                            if ap2 and ap2[2] == '=' and strip(ap2[0]).get('k') == 'MemberExpr' and member_of(ap2[0], {src}) == src:
+                                written = True
+                    out.append(Obl('C14.R3', fn.name, '%s <- scratch member %s' % (show(ap[0])[:40], src), st['loc'], 'discharged' if written else 'finding',
+                                   why='the scratch member is written earlier in the function on every path' if written else
+                                   'no constructor initialises %s::%s and this function stores it into the persistent chip state without having written it on every path: '
+                                   'when every channel is silent the channel updates return before loading it, heap garbage becomes the interpolation phase and the audio of the '
+                                   'instance differs from run to run' % (short(base), src)))
+    if n < 1:
+        raise build.AnalysisBroken('C14.R3: no write-back of a scratch member into persistent core state found (GENS update())')
+    return out
+
+
+def r2b_created_records(facts):
+    """R2 covers classes with constructors.  The active-note record (MIDIchannel::NoteInfo) has none: find_or_create_activenote() inserts
+    a default-initialised entry with only the key set, so every scalar field is indeterminate until the caller stores it.  The note
+    lists are walked by the voice allocation (calculateChipChannelGoodness reads isPercussion, vibrato) and by updateGlide (tone
+    fields): each function that creates an entry must store every scalar field on every path before it returns."""
+    out = []
+    rec = None
+    for rname, r in facts.records.items():
+        if rname.endswith('MIDIchannel::NoteInfo'):
+            rec = r
+    if rec is None:
+        raise build.AnalysisBroken('C14.R2: record MIDIchannel::NoteInfo not found')
+    want = [f['n'] for f in rec.get('fields', []) if scalar(f['t'])]
+    n = 0
+    for fn in facts.all_fns():
+        if not fn.name.startswith('OPNMIDIplay::') or '::MIDIchannel::' in fn.name or fn.tree is None:
+            continue
+        for b, j, st in fn.cfg.stmts():
+            if st['s'].get('k') != 'DeclStmt':
+                continue
+            for v in st['s']['decls']:
+                if v.get('init') is None or not any(short(callee_name(y)) in ('ensure_find_or_create_activenote', 'find_or_create_activenote') for y in calls_in(v['init'])):
+                    continue
+                n += 1
+                it_id = v['id']
+                # names for the new entry: the iterator itself and references bound to it->value
+                refs = {it_id}
+                for b2, j2, st2 in fn.cfg.stmts():
+                    if st2['s'].get('k') == 'DeclStmt':
+                        for v2 in st2['s']['decls']:
+                            if v2.get('init') is not None and (v2.get('ref') or (v2.get('t') or {}).get('ref')) and mentions(v2['init'], lambda y: y.get('id') == it_id):
+                                refs.add(v2['id'])
+                pd = fn.cfg.pdom().get(('b', b)) or ()
+                stored = set()
+                created_by_callee = {'note'}       # the creator stores the key
+                for b2, j2, st2 in fn.cfg.stmts():
+                    if not ((b2 == b and j2 > j) or (b2 != b and ('b', b2) in pd)):
+                        continue
+                    for y in walk(st2['s']):
+                        ap = assign_parts_raw(y)
+                        if ap and strip(ap[0]).get('k') == 'MemberExpr' and mentions(strip(ap[0]).get('b'), lambda z: z.get('id') in refs):
+                            stored.add(short(strip(ap[0])['n']))
+                missing = [f for f in want if f not in stored and f not in created_by_callee]
+                out.append(Obl('C14.R2', fn.name, 'new active note: every scalar field stored', st['loc'], 'finding' if missing else 'discharged',
+                               why=('the entry created here keeps indeterminate %s on a path to the end of the function: the voice allocation and the glide update read these fields of every '
+                                    'listed note, so the chosen chip channel (and the audio) depends on stack garbage' % ', '.join(missing)) if missing else
+                               'all %d scalar fields are stored on every path after the creation' % len(want)))
+    if n < 2:
+        raise build.AnalysisBroken('C14.R2: creation sites of active notes not found (%d)' % n)
+    return out
